@@ -112,6 +112,18 @@ def materialise(case):
     return root
 
 
+def real_files(tier):
+    repo = os.path.dirname(os.path.dirname(os.path.abspath(supp.scope.__file__)))
+    files = sorted(os.path.join(repo, 'supp', f) for f in os.listdir(os.path.join(repo, 'supp')) if f.endswith('.py'))
+    if tier == 'thorough':
+        files += sorted(os.path.join(repo, 'tests', f) for f in os.listdir(os.path.join(repo, 'tests')) if f.endswith('.py'))
+        std = os.path.dirname(os.__file__)
+        files += [os.path.join(std, f) for f in ('configparser.py', 'argparse.py', 'pty.py', 'cgi.py', 'shlex.py',
+                                                  'textwrap.py', 'glob.py', 'fnmatch.py', 'getopt.py', 'cmd.py')
+                  if os.path.exists(os.path.join(std, f))]
+    return files
+
+
 def answers(case, requests, idseeds, repeat=True):
     """{idseed: [answer per request, ...]} computed in this interpreter; with repeat=True every request is also
     asked a second time on the same project and once more on a fresh project (all must agree)."""
@@ -234,9 +246,42 @@ def gen_case(seed, i, mode):
     return {'kind': 'project', 'spec': spec, 'req_seed': r.getrandbits(32)}
 
 
+def file_requests(case):
+    """Real file: go-to-definition on (a seeded sample of) the reads that have more than one alternative, and lint."""
+    from supp.util import Source, get_name_usages, np
+    from supp.nast import extract_scope
+    from supp.name import MultiName
+    with open(case['path'], encoding='utf-8', errors='replace') as f:
+        text = f.read()
+    reqs = []
+    try:
+        src = Source(text, case['path'])
+        extract_scope(src, Project(['/nonexistent-root']))
+        multi = []
+        for node in get_name_usages(src.tree):
+            if not hasattr(node, 'flow'):
+                continue
+            n = node.flow.names_at(np(node)).get(node.id)
+            if type(n) is MultiName and len(n.valid_names) >= 2:
+                multi.append(node)
+    except (SyntaxError, RecursionError, ValueError):
+        return reqs
+    multi.sort(key=lambda n: (n.lineno, n.col_offset))
+    r = prng.rng('c17-file', os.path.basename(case['path']), case.get('pick', 0))
+    if len(multi) > 10:
+        multi = sorted(r.sample(multi, 10), key=lambda n: (n.lineno, n.col_offset))
+    for node in multi:
+        reqs.append({'kind': 'location', 'source': text, 'position': [node.lineno, node.col_offset + len(node.id)],
+                     'file': case['path'], 'bare': True, 'name': node.id, 'multi': True})
+    reqs.append({'kind': 'lint', 'source': text, 'position': None, 'file': case['path']})
+    return reqs
+
+
 def requests_of(case):
     if case['kind'] == 'flow':
         return flow_requests(case)
+    if case['kind'] == 'file':
+        return file_requests(case)
     if 'requests' in case:
         return case['requests']
     return project_requests(case, prng.rng('c17-req', case.get('req_seed', 0)))
@@ -277,7 +322,7 @@ def check_case(case, idseeds, hashseeds, stats=None):
         variants = {json.dumps(ref, sort_keys=True)}
         nt = has_alternatives(ref) or q.get('multi')
         if stats is not None and nt:
-            stats['keys'].add(prng.derive(prng.digest(case.get('prog') or case.get('spec')), q['kind'], q.get('position'),
+            stats['keys'].add(prng.derive(prng.digest(case.get('prog') or case.get('spec') or case.get('path')), q['kind'], q.get('position'),
                                           q.get('source') if case['kind'] == 'project' else None) & 0xffffffffffff)
         for s in idseeds:
             for mode in ('first', 'again', 'fresh_reversed'):
@@ -344,7 +389,9 @@ def plan(tier, seed, scale=1.0):
         units.append({'kind': 'runs', 'mode': 'flow', 'seed': seed, 'first': i, 'count': min(per, nflow - i), 'tier': tier})
     for i in range(0, nproj, per):
         units.append({'kind': 'runs', 'mode': 'project', 'seed': seed, 'first': i, 'count': min(per, nproj - i), 'tier': tier})
-    return units
+    files = [{'kind': 'file', 'path': f, 'tier': tier, 'seed': seed} for f in real_files(tier)]
+    # the real files first: they are the longest single units
+    return files + units
 
 
 def selftest_units(tier, seed):
@@ -375,6 +422,18 @@ def run_unit(unit):
         return {'evals': stats['evals'], 'keys': [], 'faults': stats['faults'], 'probes': stats['probes'],
                 'violations': [{'sig': v['sig'], 'case': case, 'detail': v['detail']} for v in vs[:2]],
                 'digest': prng.digest([v['sig'] for v in vs])}
+    if unit['kind'] == 'file':
+        case = {'kind': 'file', 'path': unit['path'], 'all_reads': True}
+        idseeds, hashseeds = configs_for(unit['tier'], unit['seed'], len(unit['path']))
+        idseeds = idseeds[:4]
+        vs = check_case(case, idseeds, hashseeds, stats)
+        stats['probes']['real_files'] = 1
+        log.add(os.path.basename(unit['path']), idseeds, hashseeds)
+        for v in vs[:2]:
+            c = dict(case, idseeds=[v['configs'][0][1], v['configs'][-1][1]], hashseeds=[0, v['configs'][-1][0]])
+            vios.append({'sig': v['sig'], 'case': c, 'detail': v['detail']})
+        return {'evals': stats['evals'], 'keys': sorted(stats['keys']), 'faults': stats['faults'], 'probes': stats['probes'],
+                'violations': vios, 'samples': [], 'digest': log.digest()}
     for i in range(unit['first'], unit['first'] + unit['count']):
         case = gen_case(unit['seed'], i, unit['mode'])
         idseeds, hashseeds = configs_for(unit['tier'], unit['seed'], i)
